@@ -85,7 +85,11 @@ fn respond(line: &str) -> String {
     canon_panic(r)
 }
 
-const PIECES: &[&str] = &["a", "é", "世", "😀", "𝔘", "\n", "\r", "\r\n", " ", "\u{2028}", "\t", ""];
+// one piece per UTF-8 length and per 4-byte LEAD byte (F0..F4: planes 1-3, 4-7, 8-11, 12-15, 16), both ends of each
+// encoding length, a lone BOM; line ends of every style
+const PIECES: &[&str] = &["a", "é", "世", "😀", "𝔘", "\n", "\r", "\r\n", " ", "\u{2028}", "\t", "",
+    "\u{7f}", "\u{80}", "\u{7ff}", "\u{800}", "\u{ffff}", "\u{10000}", "\u{3ffff}", "\u{40000}", "\u{7ffff}",
+    "\u{80000}", "\u{bffff}", "\u{c0000}", "\u{e0067}", "\u{e0100}", "\u{fffff}", "\u{100000}", "\u{10ffff}", "\u{feff}"];
 
 fn emit_text(t: &str, r: &mut Rng) {
     let h = hex(t.as_bytes());
